@@ -744,7 +744,38 @@ def ret_bool(tr):
     for it in reversed(tr):
         if it.k == 'branch' and it.get('depth', 0) == 0 and p in (it.get('opath'), it.get('path')):
             return bool(it.val if p == it.get('path') else it.get('oval', it.val)) != neg
+    rv = ret_value(tr)
+    if rv is not None and rv[0] == 'const':
+        return bool(rv[1])
     return None
+
+
+def ret_value(tr):
+    """what the root function returns on this trace, with conditional and short-circuit expressions resolved by the branches the path took:
+    ('const', bool) | ('expr', path, negated) | None"""
+    from .core import eval_logic
+    c = ret_const(tr)
+    if c is not None:
+        return ('const', bool(c))
+    p = ret_expr(tr)
+    if not p:
+        return None
+    p = deep_resolve_select(p, tr)
+    if p in ('true', 'false'):
+        return ('const', p == 'true')
+    known = {}
+    for it in tr:
+        if it.k == 'branch' and it.get('depth', 0) == 0:
+            for k_, v_ in (it.get('forms') or {}).items():
+                known[k_] = bool(v_)
+            if it.get('opath'):
+                known[it['opath']] = bool(it.get('oval', it.val))
+            if it.get('path'):
+                known[it['path']] = bool(it.val)
+    try:
+        return eval_logic(p, known)
+    except Exception:
+        return None
 
 
 def origin_in_trace(tr, idx, path, maxsteps=8):
